@@ -214,9 +214,11 @@ prop("C01", harness="h_exact",
                   "output iterator is a back_inserter into std::list<std::list<edge>> as in every caller in the repository"])
 prop("C02", harness="h_exact",
      quick=dict(shards=16, cases=6000, env={"VERIF_MAXN": "12"}, fuzz=dict(harness="fz_mcb", jobs=4, runs=8000, max_len=64),
-                extra_phases=[dict(shards=16, cases=250, env={"VERIF_MAXN": "36", "VERIF_MAXM": "100"}, seed_offset=400)]),
+                extra_phases=[dict(shards=16, cases=250, env={"VERIF_MAXN": "36", "VERIF_MAXM": "100"}, seed_offset=400),
+                              dict(shards=16, cases=400, env={"VERIF_PROFILE": "gnp-wide", "VERIF_MAXN": "26", "VERIF_MAXM": "140"}, seed_offset=450)]),
      thorough=dict(shards=16, cases=40000, env={"VERIF_MAXN": "16"}, fuzz=dict(harness="fz_mcb", jobs=16, time=240, max_len=64),
-                   extra_phases=[dict(shards=16, cases=2500, env={"VERIF_MAXN": "48", "VERIF_MAXM": "140"}, seed_offset=400)]),
+                   extra_phases=[dict(shards=16, cases=2500, env={"VERIF_MAXN": "48", "VERIF_MAXM": "140"}, seed_offset=400),
+                                 dict(shards=16, cases=6000, env={"VERIF_PROFILE": "gnp-wide", "VERIF_MAXN": "40", "VERIF_MAXM": "200"}, seed_offset=450)]),
      rule="Same generator as C01; oracle: returned value == exact sum of emitted cycle weights, == optimum from an independent "
           "reference (brute force over all simple cycles + greedy GF(2) independence for n<=8,m<=22; textbook de Pina with plain "
           "Dijkstra on the explicit signed graph otherwise), sorted cycle-weight vector == optimum's. Non-trivial = dimension>=2 "
@@ -227,9 +229,11 @@ prop("C02", harness="h_exact",
 
 prop("C08", harness="h_exact",
      quick=dict(shards=16, cases=400, env={"VERIF_MAXN": "20"},
-                extra_phases=[dict(shards=16, cases=12, env={"VERIF_MAXN": "150", "VERIF_MAXM": "420"}, seed_offset=500)]),
+                extra_phases=[dict(shards=16, cases=12, env={"VERIF_MAXN": "150", "VERIF_MAXM": "420"}, seed_offset=500),
+                              dict(shards=16, cases=60, env={"VERIF_PROFILE": "gnp-wide", "VERIF_MAXN": "26", "VERIF_MAXM": "140"}, seed_offset=550)]),
      thorough=dict(shards=16, cases=4000, env={"VERIF_MAXN": "36"},
-                   extra_phases=[dict(shards=16, cases=150, env={"VERIF_MAXN": "400", "VERIF_MAXM": "1400"}, seed_offset=500)]),
+                   extra_phases=[dict(shards=16, cases=150, env={"VERIF_MAXN": "400", "VERIF_MAXM": "1400"}, seed_offset=500),
+                                 dict(shards=16, cases=1000, env={"VERIF_PROFILE": "gnp-wide", "VERIF_MAXN": "40", "VERIF_MAXM": "200"}, seed_offset=550)]),
      rule="Metamorphic, oracle-free for large graphs: a generated graph G and a generated transform T (vertex+edge-order permutation, isolated "
           "vertices, pendant trees, a bridge between two components, disjoint union with a second generated graph H, subdivision of edges with "
           "w=w1+w2 exactly, scaling by 2^j). Oracle: all six exact variants/backends (signed, fvs, iso and their _tbb forms on real libtbb with "
@@ -780,6 +784,8 @@ def run_rc_property(pid, tier, conf=None):
             if any(key_matches(fk, f["key"]) for f in findings):
                 known_hit[fk] = known_hit.get(fk, 0) + 1
                 continue
+            if any(v[0] == fk for v in violations):
+                continue   # one confirmed replay per failure key is enough; do not minimise/confirm duplicates from other shards
             if hard and key != "hang":
                 try:
                     text = minimise_crash_case(r.get("binp", binp), pid, text, env, workdir, key, launcher=launcher)
@@ -1247,6 +1253,8 @@ def run_c07(pid, tier):
                 continue
             fk = full_key(pid, key, text)
             if any(key_matches(fk, f["key"]) for f in findings):
+                continue
+            if any(v[0] == fk for v in violations):
                 continue
             if hard and key != "hang":
                 try:
